@@ -20,7 +20,27 @@ const DIRECTIONS: &[&str] = &[
     // a continuation captured at the bottom of a non-tail recursion 10^d deep, re-entered from a later top-level form
     "continuation-at-depth",
 ];
-const OPERATIONS: &[&str] = &["read", "quote-evaluate", "build", "keep-live-across-collection", "equal", "write", "drop"];
+const OPERATIONS: &[&str] = &["read", "quote-evaluate", "build", "keep-live-across-collection", "equal", "write", "drop", "display-procedure"];
+
+/// A host interface that prints what the display and write procedures hand it, as the REPL's does.
+#[derive(Debug)]
+struct Printer {
+    written: std::rc::Rc<std::cell::Cell<usize>>,
+}
+impl marwood::vm::SystemInterface for Printer {
+    fn display(&self, cell: &Cell) {
+        self.written.set(self.written.get() + format!("{}", cell).len());
+    }
+    fn write(&self, cell: &Cell) {
+        self.written.set(self.written.get() + format!("{:#}", cell).len());
+    }
+    fn terminal_dimensions(&self) -> (usize, usize) {
+        (80, 24)
+    }
+    fn time_utc(&self) -> u64 {
+        0
+    }
+}
 const DEPTHS: &[u64] = &[1_000, 10_000, 100_000];
 const THREADS: &[&str] = &["main", "2MiB"];
 
@@ -31,7 +51,7 @@ fn applicable(dir: &str, op: &str) -> bool {
         "read" | "quote-evaluate" | "drop" => data || (matches!(dir, "nested-expression" | "wide-application" | "long-body") && op != "quote-evaluate"),
         "build" => true,
         "keep-live-across-collection" => !matches!(dir, "nested-expression" | "non-tail-recursion" | "wide-application" | "long-body"),
-        "equal" | "write" => data,
+        "equal" | "write" | "display-procedure" => data,
         _ => false,
     }
 }
@@ -167,6 +187,19 @@ pub fn run_cell(spec: &str) -> String {
                         std::mem::forget(c);
                         format!("value ({} characters written)", s.len())
                     }
+                    Err(e) => format!("error: {}", e),
+                }
+            }
+            // the Scheme procedures display and write, given the structure (the library converts it for the host
+            // interface and disposes of the converted datum itself)
+            "display-procedure" => {
+                let written = std::rc::Rc::new(std::cell::Cell::new(0usize));
+                im.vm.set_system_interface(Box::new(Printer { written: written.clone() }));
+                if let Err(e) = eval_all(&mut im, &builder(&dir, depth, "x")) {
+                    return format!("error: {}", e);
+                }
+                match eval_all(&mut im, "(display x) (write x)") {
+                    Ok(()) => format!("value ({} characters written)", written.get()),
                     Err(e) => format!("error: {}", e),
                 }
             }
